@@ -195,6 +195,10 @@ inductive Stmt where
   | insert (target : String) (source : Fp)      -- VALUES: `Fp.none`; INSERT … SELECT: the query
   | update (target : String) (subqueries : Fp)
   | delete (target : String) (subqueries : Fp)
+  /-- TRUNCATE of several tables (multi-table form, or the root and every table that
+      references it through foreign keys, transitively, for CASCADE) and DROP TABLE (one
+      table): `check_delete` / `check_drop` ask for DELETE on each table -/
+  | truncate (targets : List String)
   deriving Repr
 
 def Stmt.reads : Stmt → List String
@@ -202,16 +206,23 @@ def Stmt.reads : Stmt → List String
   | .insert _ s => s.reads
   | .update _ s => s.reads
   | .delete _ s => s.reads
+  | .truncate _ => []
 
 def Stmt.write : Stmt → Option Check
   | .select _ => none
   | .insert t _ => some ⟨.insert, t⟩
   | .update t _ => some ⟨.update, t⟩
   | .delete t _ => some ⟨.delete, t⟩
+  | .truncate _ => none
 
-/-- checks in the order the executors make them: the write privilege first, then reads -/
+/-- write checks of the statements that touch several tables -/
+def Stmt.moreWrites : Stmt → List Check
+  | .truncate ts => ts.map (fun t => ⟨.delete, t⟩)
+  | _ => []
+
+/-- checks in the order the executors make them: the write privilege(s) first, then reads -/
 def Stmt.checks (s : Stmt) : List Check :=
-  (match s.write with | some c => [c] | none => []) ++ s.reads.map (fun t => ⟨.select, t⟩)
+  (match s.write with | some c => [c] | none => []) ++ s.moreWrites ++ s.reads.map (fun t => ⟨.select, t⟩)
 
 inductive Decision where
   | allow
